@@ -550,9 +550,58 @@ def check_heads(run, rule):
     run.floor(rule, 9, "public readers")
 
 
-def check_values(run, rule):
+def callers_pass_cleared_flag(facts):
+    """True if every call of read_array_start / read_map_start inside the library hands over a flag that is `false` at the
+    call: a local declared `= false` in the innermost loop around the call (or outside any loop the call is not in), with no
+    other store.  Then a start function that only ever sets the flag behaves, for the library's own readers, like one that
+    also clears it (the decoder's contract towards other callers is C07's business, not the round trip's)."""
+    for f in facts.functions.values():
+        if not f.get("file", "").startswith(facts.repo + "/src/") or f.get("body") is None:
+            continue
+        loops_of = {}
+        for n, parents in ir.walk_with_parents(f["body"]):
+            loops_of[id(n)] = tuple(id(a) for a in parents if a.get("k") in ("While", "Do", "For", "RangeFor"))
+        decls = {}
+        for n in ir.walk(f["body"]):
+            if n.get("k") == "Decl":
+                for v in n.get("vars", []):
+                    if "n" in v:
+                        decls["l:%s#%s" % (v["n"], v["id"])] = (n, v)
+        for c in ir.calls_in(f["body"]):
+            if callee_qn(c) not in (DEC + "::read_array_start", DEC + "::read_map_start") or f.get("cls") == DEC:
+                continue
+            ap = path(c["args"][0]) if c.get("args") else None
+            if ap and len(ap) == 2 and ap[0] == "this":
+                # a member flag: cleared by every constructor's initialiser list, and the function runs only from constructors
+                ctors = [g for g in facts.functions.values() if g.get("cls") == f.get("cls") and g.get("ctor") and g.get("body") is not None]
+                inits_ok = bool(ctors) and all(any(i.get("member") == ap[1] and const_value(i.get("init")) in (0, False) for i in g.get("inits", []) or [])
+                                               for g in ctors)
+                callers = [g for g in facts.functions.values() if g.get("body") is not None and
+                           any(callee_qn(x) == f["qn"] for x in ir.calls_in(g["body"]))]
+                stores = [n for n in ir.walk(f["body"]) if n.get("k") == "Bin" and n.get("op") == "=" and path(n["lhs"]) == ap]
+                if inits_ok and callers and all(g.get("ctor") and g.get("cls") == f.get("cls") for g in callers) and not stores:
+                    continue
+                return False
+            if not ap or len(ap) != 1 or ap[0] not in decls:
+                return False
+            d, v = decls[ap[0]]
+            if v.get("init") is None or const_value(v["init"]) not in (0, False):
+                return False
+            if loops_of.get(id(d), ()) != loops_of.get(id(c), ())[:len(loops_of.get(id(d), ()))] or len(loops_of.get(id(d), ())) != len(loops_of.get(id(c), ())):
+                return False
+            for n in ir.walk(f["body"]):
+                if n.get("k") == "Bin" and n.get("op", "").endswith("=") and n["op"] not in ("==", "!=", "<=", ">=") and path(n["lhs"]) == ap:
+                    return False
+            uses = [x for x in ir.calls_in(f["body"]) if any(path(a) == ap for a in x.get("args", []))]
+            if len(uses) != 1:
+                return False
+    return True
+
+
+def check_values(run, rule, flag_contract=True):
     """R07.6 small value-semantics table: read_negative = -1 - n, read_bool table, read_break, read_integer dispatch."""
     facts = run.facts
+    tolerate_unset = (not flag_contract) and callers_pass_cleared_flag(facts)
     cb = {e["n"]: e["v"] for e in facts.enum("CDNS::CborType")["enumerators"]}
     rn = dfn(facts, "read_negative", rule)
     rets = [n for n in ir.walk(rn["body"]) if n.get("k") == "Return" and n.get("e") is not None]
@@ -587,6 +636,51 @@ def check_values(run, rule):
                "simple value 20 -> false, 21 -> true, every other simple value rejected" if ok else "read_bool decodes simple values as %s" % bad)
     else:
         run.ob(rule, "read_bool:simple-20/21", None, rb, rb["line"], "read_cbor_type call not found")
+    # array / map start: per (major type, additional information) the count that is returned and what the caller is told about
+    # the length being indefinite - the out-parameter has to be stored on every accepting path (a caller may reuse the flag)
+    for nm, major in (("read_array_start", "ARRAY"), ("read_map_start", "MAP")):
+        fs = dfn(facts, nm, rule)
+        rc = [c for c in ir.calls_in(fs["body"]) if callee_qn(c) == "CDNS::CdnsDecoder::read_cbor_type"]
+        outs = [p_ for p_ in fs.get("params", []) if p_.get("t") == "bool &"]
+        if len(rc) != 1 or len(outs) != 1:
+            run.ob(rule, "%s:count/indefinite" % nm, None, fs, fs["line"], "expected one read_cbor_type call and one bool& out-parameter")
+            continue
+        tvar, avar = path_str(path(rc[0]["args"][0])), path_str(path(rc[0]["args"][1]))
+        flag = "p:%s" % outs[0]["n"]
+        bad = []
+        for tname, tv in cb.items():
+            if tname == "BREAK":
+                continue
+            for ai in range(32):
+                env = {tvar: tv, avar: ai}
+                r = minieval.run_straightline(ir.stmts(fs["body"]), env, facts.enums)
+                if tname != major or 28 <= ai <= 30:
+                    want, got = "throw", r[0]
+                else:
+                    want = ("return", 0, 1) if ai == 31 else ("return", "read_int(%d)" % ai, 0)
+                    got = r[0]
+                    if r[0] == "return":
+                        e = unwrap_all_casts(r[1]["e"])
+                        if callee_qn(e) == "CDNS::CdnsDecoder::read_int" and len(e.get("args", [])) == 1:
+                            try:
+                                val = "read_int(%d)" % minieval.ev(unwrap(e["args"][0]), env, facts.enums)
+                            except minieval.Unknown:
+                                val = "read_int(?)"
+                        else:
+                            try:
+                                val = minieval.ev(unwrap(r[1]["e"]), env, facts.enums)
+                            except minieval.Unknown:
+                                val = "?"
+                        fl = env.get(flag, 0 if tolerate_unset else "not stored")
+                        got = ("return", val, int(fl) if isinstance(fl, (bool, int)) else fl)
+                if got != want:
+                    bad.append((tname, ai, got, want))
+        ok = not bad
+        run.ob(rule, "%s:count/indefinite" % nm, ok, fs, fs["line"],
+               "ai 0..27 -> read_int(ai) with the flag cleared, 31 -> 0 with the flag set, 28..30 and every other major type rejected" if ok else
+               "for major %s, additional information %d: %s, expected %s (indefinite-length flag %s)" % (
+                   bad[0][0], bad[0][1], bad[0][2], bad[0][3],
+                   "is not stored on this path: a caller reusing its variable keeps the previous value" if "not stored" in repr(bad[0][2]) else "wrong"))
     rk = dfn(facts, "read_break", rule)
     rc = [c for c in ir.calls_in(rk["body"]) if callee_qn(c) == "CDNS::CdnsDecoder::read_cbor_type"]
     if len(rc) == 1:
@@ -616,7 +710,7 @@ def check_values(run, rule):
                     disp["default"] = "throw" if throws else (calls[0] if calls else None)
     ok = disp.get("UNSIGNED") == "read_unsigned" and disp.get("NEGATIVE") == "read_negative" and disp.get("default") == "throw"
     run.ob(rule, "read_integer:dispatch", ok, ri, ri["line"], "unsigned -> read_unsigned, negative -> read_negative, anything else rejected" if ok else "read_integer dispatch is %s" % disp)
-    run.floor(rule, 4, "value-semantics table")
+    run.floor(rule, 6, "value-semantics table")
 
 
 def check(run):
